@@ -51,6 +51,47 @@ class CountingReader:
         self.got += len(out)
         return out
 
+    def _charge(self, n):
+        self.calls += 1
+        if self.budget is not None and self.calls + self.got > self.budget:
+            raise Budget('read budget exceeded')
+        self.req += n if n is not None and n >= 0 else 0
+
+    # the other ways an io.IOBase hands out bytes: accounted like read (a reader written with readinto / read1 / readline
+    # is judged by the same budget and the same linear bound)
+    def read1(self, n=-1):
+        self._charge(n)
+        out = self.s.read1(n)
+        self.got += len(out)
+        return out
+
+    def readinto(self, buf):
+        self._charge(memoryview(buf).nbytes)
+        n = self.s.readinto(buf)
+        self.got += n or 0
+        return n
+
+    readinto1 = readinto
+
+    def readline(self, n=-1):
+        self._charge(n)
+        out = self.s.readline(n)
+        self.got += len(out)
+        return out
+
+    def readable(self):
+        return True
+
+    def seekable(self):
+        return True
+
+    def writable(self):
+        return False
+
+    @property
+    def closed(self):
+        return False
+
     def seek(self, *a):
         return self.s.seek(*a)
 
@@ -477,3 +518,186 @@ def line_enc_v3(f):
     bl = ';'.join('%s/%s/%s' % (b['tag'], b['payload'] or '-', 'p' if b['padded'] else 'u') for b in f['blocks']) or '-'
     return 'encv3 %s %s %s %s %s %s %s %s %s' % (','.join(map(str, f['hdr'])), f['cpu'], f['four'], f['filler'] or '-',
                                                 f['gap1'] or '-', th, f['tmtrail'] or '-', ch, bl)
+
+
+# --------------------------------------------------------------------------------------------------
+# full-record view of an event, independent decoding, "built from 64 consecutive input bytes"
+
+def ev_key(e):
+    """ALL fields of a delivered event (show_ev leaves `values` out)."""
+    return (e.timestamp, bytes(e.data), tuple(e.values), e.tid, e.debugid, e.eventid, e.func_qualifier)
+
+
+def dec_rec(r):
+    """The decoding of one 64-byte record, written with int.from_bytes (independent of the repository's format string)."""
+    dbg = int.from_bytes(r[48:52], 'little')
+    return (int.from_bytes(r[0:8], 'little'), bytes(r[8:40]),
+            tuple(int.from_bytes(r[8 + 8 * i:16 + 8 * i], 'little') for i in range(4)),
+            int.from_bytes(r[40:48], 'little'), dbg, dbg - dbg % 4, dbg % 4)
+
+
+def not_from_input(events, data, start=0):
+    """None, or (index, why) for the first event that is not the decoding of 64 consecutive bytes of `data`, the windows
+    taken in ascending order without overlap (greedy earliest match; bytes 52..63 of a record are not part of an event)."""
+    pos = start
+    for i, e in enumerate(events):
+        try:
+            k = ev_key(e)
+            head = k[0].to_bytes(8, 'little') + k[1] + k[3].to_bytes(8, 'little') + k[4].to_bytes(4, 'little')
+        except (OverflowError, TypeError, AttributeError, ValueError) as x:
+            return i, 'fields are not those of a record (%s)' % type(x).__name__
+        if len(k[1]) != 32 or k != dec_rec(head + bytes(12)):
+            return i, 'fields of the event contradict each other (values / eventid / qualifier are not derived from data / debugid)'
+        j = data.find(head, pos)
+        while j >= 0 and j + 64 > len(data):
+            j = -1
+        if j < 0:
+            return i, 'no 64 consecutive input bytes behind offset %d decode to this event' % pos
+        pos = j + 64
+    return None
+
+
+# --------------------------------------------------------------------------------------------------
+# recipes: compact JSON-able descriptions of BIG dumps (a few integers instead of megabytes of hex), used by the
+# block-size driven sections (tools/kdv/readprobe.py) whose inputs are too long for a protocol line
+
+_HI = bytes(range(0x81, 0xff))          # none of these bytes occurs in any tag
+_HI_TABLE = bytes(_HI[b % len(_HI)] for b in range(256))
+
+
+def gap_bytes(spec, tag):
+    """Bytes in front of `tag` for a gap recipe {'len': L, 'style': 'hi'|'zero'|'near'|'soup', 'seed': s, 'tail': hex}:
+    exactly L bytes, ending with `tail`, such that the FIRST occurrence of tag in gap+tag is at L (checked)."""
+    import random
+    n = spec['len']
+    tail = bytes.fromhex(spec.get('tail', ''))
+    body_len = n - len(tail)
+    assert body_len >= 0
+    style = spec.get('style', 'hi')
+    if style == 'zero':
+        body = bytes(body_len)
+    elif style == 'near':               # the tag without its last byte, over and over
+        unit = tag[:-1] + b'\xa5'
+        body = (unit * (body_len // len(unit) + 1))[:body_len]
+    elif style == 'soup':               # complete OTHER tags and proper prefixes of this one
+        rng = random.Random(spec.get('seed', 0))
+        parts, size = [], 0
+        others = [t for t in ALL_TAGS if t != tag and tag not in t]
+        while size < body_len:
+            p = rng.choice(others) if rng.random() < 0.5 else tag[:rng.randrange(1, len(tag))] + b'\xc3'
+            parts.append(p)
+            size += len(p)
+        body = b''.join(parts)[:body_len]
+    else:
+        body = random.Random(spec.get('seed', 0)).randbytes(body_len).translate(_HI_TABLE)
+    gap = body + tail
+    if (gap + tag).find(tag) != n:      # a style that happens to contain the tag: plain filler (keeps the grammar's side condition)
+        gap = random.Random(spec.get('seed', 0)).randbytes(body_len).translate(_HI_TABLE) + tail
+        assert (gap + tag).find(tag) == n, 'gap recipe contains its tag'
+    return gap
+
+
+def recipe_threads(n, seed=0):
+    return [(0x100 + 3 * i + seed % 7, 50 + (i + seed) % 5, b'proc%d' % ((i + seed) % 5)) for i in range(n)]
+
+
+def recipe_records(seed, n):
+    """n distinct-looking random records; the first one does not begin with a zero byte (K1 stays in its own stream)."""
+    import random
+    raw = bytearray(random.Random(seed).randbytes(64 * n))
+    if n and raw[0] == 0:
+        raw[0] = 1
+    return bytes(raw)
+
+
+def big_v2(rc):
+    """rc: {'v': 2, 'seed', 'threads', 'pad', 'n'} -> (bytes, info) with info = dict(p0, recs (one bytes object), threads)."""
+    th = recipe_threads(rc['threads'], rc['seed'])
+    recs = recipe_records(rc['seed'], rc['n'])
+    head = enc_v2(th, rc['pad'], [])
+    return head + recs, {'p0': len(head), 'areas': [(len(head), rc['n'])], 'recs': recs, 'threads': th}
+
+
+def big_v3(rc):
+    """rc: {'v': 3, 'seed', 'threads', 'filler': gap, 'gap1': gap, 'chunks': [{'gap': gap, 'n': records, 'extra': <64}], 'trail'}
+    -> (bytes, info); info: scans = stream positions where the scans for the stackshot end / the thread-map tag / each chunk's
+    events tag begin, tags = where those tags are, record areas [(offset, n)], all records as one bytes object."""
+    th = recipe_threads(rc['threads'], rc['seed'])
+    cpu = bplist({'cpus': 2})
+    hdr = [0x55aa0300, 0, 0x30, 125, 3, 1000, 1600000000, 5, 0, 0, 1, 0]
+    sizes = [4, 4, 8, 4, 4, 8, 8, 4, 4, 4, 4, 4]
+    body = b''.join(v.to_bytes(s, 'little') for v, s in zip(hdr, sizes)) + len(cpu).to_bytes(8, 'little') + cpu
+    body += bytes(-len(body) % 8)
+    out = [V3_MAGIC, body, bytes(4)]
+    pos = 4 + len(body) + 4
+    info = {'scan0': pos, 'threads': th, 'areas': [], 'tags': [], 'scans': [pos]}
+    g = gap_bytes(rc['filler'], STACKSHOT_END)
+    out += [g, STACKSHOT_END]
+    info['tags'].append(pos + len(g))
+    pos += len(g) + 16
+    info['scans'].append(pos)
+    g = gap_bytes(rc['gap1'], TAG_THREADMAP)
+    tm = b''.join(enc_thread(*t) for t in th) + bytes(rc.get('trail', 0))
+    out += [g, TAG_THREADMAP, len(tm).to_bytes(8, 'little'), tm]
+    info['tags'].append(pos + len(g))
+    pos += len(g) + 16 + len(tm)
+    allrecs = []
+    for i, ch in enumerate(rc['chunks']):
+        if i > 0:
+            out.append(TAG_MORE)
+            pos += 8
+        info['scans'].append(pos)
+        g = gap_bytes(ch['gap'], TAG_EVENTS)
+        recs = recipe_records(rc['seed'] * 131 + i + 1, ch['n'])
+        out += [g, TAG_EVENTS, (64 * ch['n'] + ch.get('extra', 0)).to_bytes(8, 'little'), bytes(8), recs]
+        info['tags'].append(pos + len(g))
+        pos += len(g) + 24
+        info['areas'].append((pos, ch['n']))
+        pos += len(recs)
+        allrecs.append(recs)
+    info['recs'] = b''.join(allrecs)
+    data = b''.join(out)
+    assert len(data) == pos
+    return data, info
+
+
+def big_bytes(rc):
+    return big_v2(rc) if rc['v'] == 2 else big_v3(rc)
+
+
+def recipe_expected(info):
+    """(decoded records, tables text) a well-formed recipe dump must deliver."""
+    recs = info['recs']
+    exp = [dec_rec(recs[i:i + 64]) for i in range(0, len(recs), 64)]
+    tp, pn = {}, {}
+    for tid, pid, name in info['threads']:
+        tp[tid] = pid
+        pn[pid] = name.decode('utf-8')
+    return exp, show_tables(tp, pn)
+
+
+def complete_records(info, k):
+    """number of records of the recipe dump that lie completely inside its first k bytes."""
+    n = 0
+    for off, cnt in info['areas']:
+        if k <= off:
+            break
+        n += min(cnt, (k - off) // 64)
+    return n
+
+
+def judge_whole(rc_or_info, events, err, tables, what='dump'):
+    """The C02/C03 property on one parse of a well-formed recipe dump: None | (signature tail, text)."""
+    info = rc_or_info
+    exp, tbl = recipe_expected(info)
+    if err is not None:
+        return 'raises', 'a well-formed %s raised %s after %d of %d events' % (what, out_err(err), len(events), len(exp))
+    if len(events) != len(exp):
+        return 'event-count', 'expected %d events, got %d' % (len(exp), len(events))
+    got = [ev_key(e) for e in events]
+    if got != exp:
+        i = next(i for i, (a, b) in enumerate(zip(got, exp)) if a != b)
+        return 'event-differs', 'event %d of %d is not the decoding of record %d' % (i, len(exp), i)
+    if tables != tbl:
+        return 'tables', 'tables after the parse are not the dump\'s thread map: ' + tables[:200]
+    return None
